@@ -218,7 +218,7 @@ def main(chk):
                 'output of the first; TSTART/TSTOP/ONTIME/LIVETIME/DEADC of PRIMARY, EVENTS and GTI compared with the documented values and with the Lean model '
                 'run on Float. non-trivial = one-sided window or two GTIs')
     chk.assumptions = TRUSTED
-    chk.lean(['IxpeVerif.Props.C10', 'IxpeVerif.Props.Audit.C10'])
+    chk.lean(['IxpeVerif.Props.C10', 'IxpeVerif.Props.Audit.C10'], ['time_header_keywords', 'time_selected', 'phase_selected', 'average_deadtime_per_event'])
     n = 40 if chk.tier == 'quick' else 800
     run_cases(chk, n, 'C10-corr')
     return chk.finish(level='proof', trusted=TRUSTED, search=lambda k: run_cases(chk, n, 'C10-search', 3))
